@@ -403,6 +403,13 @@ func RunCheck(def *CheckDef, tier string, seed uint64, root, repo, exe string) i
 			fmt.Printf("  clause=%s key=%s\n    %s\n", v.Clause, strconv.Quote(Trunc(v.Key, 300)), v.What)
 		}
 	}
+	if nViol > 0 {
+		perClause := map[string]int{}
+		for _, v := range uniq {
+			perClause[v.Clause]++
+		}
+		fmt.Printf("  distinct violations per clause (known ones included): %v\n", perClause)
+	}
 	for _, l := range knownLines {
 		fmt.Println(l)
 	}
